@@ -193,3 +193,95 @@ def _c04_kind(why, fl):
     if w.startswith("calls a computed"):
         return "call-computed"
     return "?"
+
+
+class _LoadsRecorder:
+    """Replaces pickle.loads while the checked loader runs so that nothing is really unpickled."""
+
+    def __init__(self):
+        self.calls = []
+
+    def __call__(self, data, *a, **k):
+        self.calls.append(bytes(data))
+        return ("loaded", len(self.calls))
+
+
+def c19_total(term, out):
+    """If the pickle decompiles, the safety check answers, and the answer serialises consistently."""
+    import io
+    import json
+    import pickle
+
+    PROP = "C19"
+    oks, src = term.src
+    if not oks:
+        out.stats.inc("undecompilable_skipped")
+        return
+    okp, p = term.pickled
+    from fickling.analysis import Severity, check_safety
+    from fickling.exception import UnsafeFileError
+
+    out.stats.inc("decompilable_programs")
+    shape = _c19_shape(src)
+    try:
+        res = check_safety(p)
+    except RecursionError:
+        out.stats.inc("analysis_recursion_on_cyclic")
+        return
+    except Exception as e:  # noqa: BLE001
+        out.violate(PROP, f"C19|check_safety-raises|{type(e).__name__}|{shape}",
+                    f"check_safety raised {type(e).__name__}: {e} on decompilable {_short(src, 160)}", term.replay(), len(term.data))
+        return
+    for r in res.results:
+        if not isinstance(getattr(r, "severity", None), Severity) or not isinstance(getattr(r, "message", None), str):
+            out.violate(PROP, f"C19|malformed-finding|{type(r).__name__}|{shape}",
+                        f"finding {r!r} lacks a Severity/str message for {_short(src, 160)}", term.replay(), len(term.data))
+            return
+    try:
+        sev = res.severity
+        d = res.to_dict()
+        txt = json.dumps(d)
+        assert json.loads(txt)["severity"] == sev.name
+    except Exception as e:  # noqa: BLE001
+        out.violate(PROP, f"C19|report-not-json|{type(e).__name__}|{shape}",
+                    f"to_dict()/json.dumps failed: {type(e).__name__}: {e} for {_short(src, 160)}", term.replay(), len(term.data))
+        return
+    out.outcomes.add(("sev", sev.name))
+    import fickling
+
+    rec = _LoadsRecorder()
+    orig = pickle.loads
+    pickle.loads = rec
+    try:
+        try:
+            fickling.load(io.BytesIO(term.data))
+            raised = None
+        except UnsafeFileError as e:
+            raised = e
+        except Exception as e:  # noqa: BLE001
+            out.violate(PROP, f"C19|loader-raises|{type(e).__name__}|{shape}",
+                        f"fickling.load raised {type(e).__name__}: {e} instead of returning/UnsafeFileError for {_short(src, 160)}",
+                        term.replay(), len(term.data))
+            return
+    finally:
+        pickle.loads = orig
+    out.stats.inc("loader_calls")
+    if raised is not None:
+        if raised.info != d:
+            out.violate(PROP, f"C19|info-differs|{shape}",
+                        f"UnsafeFileError.info {_short(raised.info)} != check_safety().to_dict() {_short(d)}",
+                        term.replay(), len(term.data))
+        out.stats.inc("loader_raised_unsafe")
+    else:
+        out.stats.inc("loader_returned")
+
+
+def _c19_shape(src):
+    import re
+
+    m = re.findall(r"^from (\S+) import (\S+)", src, re.M)
+    names = sorted({n for _m, n in m})
+    special = [n for n in names if n in ("eval", "exec", "compile", "open", "load", "getitem", "attrgetter", "itemgetter",
+                                         "methodcaller", "runstring", "_load_from_bytes", "_run_code", "execWrapper",
+                                         "__setstate__")]
+    return "import-" + (special[0] if special else "other")
